@@ -48,6 +48,7 @@ type Options struct {
 	ReconnectBase   time.Duration
 	ReconnectMax    time.Duration
 	ConnectTimeout  time.Duration
+	Auth            string // "password" / "dse": the backend authenticates connections, the proxy is given the credentials
 	TLS             bool // clients connect to the proxy over TLS (as with --proxy-cert-file / --proxy-key-file)
 	PreparedCache   proxycore.PreparedCache
 	RefreshHook     func()
@@ -129,6 +130,7 @@ func Start(o Options) (*Env, error) {
 	cl := fakecass.NewCluster(port)
 	cl.MaxVersion = o.BackendMax
 	cl.DSEVersion = o.DSEVersion
+	cl.Auth = o.Auth
 	e := &Env{Cluster: cl, subnet: subnet}
 	for i := 0; i < o.Hosts; i++ {
 		ip := fmt.Sprintf("127.%d.0.%d", subnet, i+1)
@@ -155,6 +157,9 @@ func Start(o Options) (*Env, error) {
 		Tokens:            o.Tokens,
 		Peers:             o.Peers,
 		PreparedCache:     o.PreparedCache,
+	}
+	if o.Auth != "" {
+		cfg.Auth = proxycore.NewPasswordAuth("user", "pw")
 	}
 	if o.HasOverride {
 		proxy.VerifSetWriteConsistencyOverride(&cfg, o.Unsupported, o.Override)
